@@ -689,3 +689,112 @@ Qed.
 Lemma latch_check_then_act_refuted :
   exists sched, m_runs (fst (run _ _ (mstep false) (minit, [MCheck; MCheck]) sched)) = 2.
 Proof. exists [0; 1; 0; 0; 0; 1; 1; 1]. vm_compute. reflexivity. Qed.
+
+(* ================================================================================================ *)
+(* N. register refused while any entry exists: unregister-by-id never removes somebody else's entry  *)
+(* ================================================================================================ *)
+Definition NInv (s : nsh * list npc) : Prop :=
+  let sh := fst s in
+  exists pc0 tl, snd s = pc0 :: tl /\ Forall (fun t => match t with NReg _ | NRegRet _ => True | _ => False end) tl /\
+    (forall b, In b (n_regok sh) -> n_entry sh = Some b) /\
+    match pc0 with
+    | NMark | NUnreg => n_entry sh = Some 0 /\ n_regok sh = []
+    | NDone => True
+    | _ => False
+    end.
+
+Lemma ninv_step s i : NInv s -> NInv (sys_step _ _ (nstep false) s i).
+Proof.
+  destruct s as [sh ls]. unfold NInv. cbn [fst snd]. intros (pc0 & tl & -> & Htl & Hreg & Hpc).
+  unfold sys_step. cbn [fst snd]. destruct i as [|j]; cbn [nth_error upd_nth].
+  - destruct pc0; try contradiction; cbn [nstep fst snd n_entry n_regok].
+    + exists NUnreg, tl. repeat split; auto. exact (proj1 Hpc). exact (proj2 Hpc).
+    + exists NDone, tl. split; [reflexivity|]. split; [exact Htl|]. split; [|exact I].
+      intros b Hb. destruct Hpc as [_ Hr]. rewrite Hr in Hb. destruct Hb.
+    + exists NDone, tl. auto.
+  - destruct (nth_error tl j) as [x|] eqn:En; [|exists pc0, tl; auto].
+    assert (Hx := Forall_nth _ tl j x Htl En). destruct x as [| | |b|ok]; try contradiction; cbn [nstep andb].
+    + destruct (n_entry sh) as [o|] eqn:Ee; cbn [fst snd n_entry n_regok].
+      * exists pc0, (upd_nth j (NRegRet false) tl). split; [reflexivity|]. split; [apply Forall_upd; [exact Htl|exact I]|]. rewrite Ee. auto.
+      * exists pc0, (upd_nth j (NRegRet true) tl). split; [reflexivity|]. split; [apply Forall_upd; [exact Htl|exact I]|]. split.
+        -- intros b' Hb. apply in_app_or in Hb. destruct Hb as [Hb|[<-|[]]]; [|reflexivity].
+           apply Hreg in Hb. congruence.
+        -- destruct pc0; try contradiction; try exact I; destruct Hpc as [He _]; congruence.
+    + exists pc0, (upd_nth j (NRegRet ok) tl). rewrite (upd_nth_same tl j _ En). auto.
+Qed.
+
+(* the closer of tunnel 0 and ANY number of registrations under the same id, ANY schedule: every tunnel whose registration
+   succeeded is the manager's current entry (so manager.Close() reaches it): it is never made invisible by the old tunnel's
+   UnregisterTunnel(id) *)
+Theorem registered_tunnels_stay_visible regs sched :
+  let s := run _ _ (nstep false) (ninit, NMark :: map NReg regs) sched in
+  forall b, In b (n_regok (fst s)) -> n_entry (fst s) = Some b.
+Proof.
+  intros s. assert (HI : NInv s).
+  { unfold s. apply inv_all_schedules; [intros s0 i; apply ninv_step|].
+    exists NMark, (map NReg regs). split; [reflexivity|]. split.
+    - apply Forall_forall. intros t Ht. apply in_map_iff in Ht. destruct Ht as (b & <- & _). exact I.
+    - cbn. split; [intros b []|auto]. }
+  destruct HI as (pc0 & tl & _ & _ & Hreg & _). exact Hreg.
+Qed.
+
+(* a Closing tunnel's entry may be replaced: B is registered while A is between its state CAS and UnregisterTunnel(id); A's
+   unregister then deletes B's entry: B was registered successfully and is invisible to the manager *)
+Lemma replace_closing_entry_refuted :
+  exists sched,
+    let s := run _ _ (nstep true) (ninit, [NMark; NReg 7]) sched in
+    snd s = [NDone; NRegRet true] /\ n_regok (fst s) = [7] /\ n_entry (fst s) = None.
+Proof. exists [0; 1; 0]. vm_compute. auto. Qed.
+
+(* ================================================================================================ *)
+(* O. handlers that do not take the component's own Dispose lock: the lock holder is never blocked   *)
+(* ================================================================================================ *)
+Definition ohold (t : opc) : list opc := match t with ORun | OUnlock => [t] | _ => [] end.
+Definition OInv (s : osh * list opc) : Prop :=
+  (o_lock (fst s) = false /\ flat_map ohold (snd s) = []) \/ (o_lock (fst s) = true /\ exists h, flat_map ohold (snd s) = [h]).
+
+Lemma oinv_step s i : OInv s -> OInv (sys_step _ _ (ostep false) s i).
+Proof.
+  destruct s as [sh ls]. unfold OInv, sys_step. cbn [fst snd]. intros H.
+  destruct (nth_error ls i) as [x|] eqn:En; [|exact H].
+  destruct (fm_upd2 ohold ls i x En) as (a & b & Ha & Hupd). destruct sh as [lk cl rn]. cbn [o_lock] in *.
+  destruct x; cbn [ostep o_lock o_closed andb]; cbn [ohold] in Ha.
+  - destruct lk; cbn [fst snd o_lock]; [rewrite (upd_nth_same ls i _ En); exact H|].
+    destruct H as [[_ Hh]|[Hl _]]; [|discriminate]. rewrite Ha in Hh. apply app_nil3 in Hh. destruct Hh as (-> & _ & ->).
+    destruct cl; cbn [fst snd o_lock]; [left; split; [reflexivity|rewrite Hupd; reflexivity]|].
+    right. split; [reflexivity|]. exists ORun. rewrite Hupd. reflexivity.
+  - cbn [fst snd o_lock]. destruct H as [[_ Hh]|[Hl (h & Hh)]]; [rewrite Ha in Hh; exfalso; eapply app_mid_nil; exact Hh|].
+    rewrite Ha in Hh. cbn [app] in Hh. apply app_single in Hh. destruct Hh as (-> & -> & _).
+    right. split; [exact Hl|]. exists OUnlock. rewrite Hupd. reflexivity.
+  - cbn [fst snd o_lock]. destruct H as [[_ Hh]|[Hl (h & Hh)]]; [rewrite Ha in Hh; exfalso; eapply app_mid_nil; exact Hh|].
+    rewrite Ha in Hh. cbn [app] in Hh. apply app_single in Hh. destruct Hh as (-> & -> & _).
+    left. split; [reflexivity|]. rewrite Hupd. reflexivity.
+  - cbn [fst snd]. rewrite (upd_nth_same ls i _ En). exact H.
+Qed.
+
+(* ANY number of closers, ANY schedule: whenever the Dispose lock is held, its holder is a thread whose next step is enabled
+   (it runs the handlers, then unlocks): Close / Stop never waits on itself *)
+Theorem lock_holder_never_blocked k sched :
+  let s := run _ _ (ostep false) (oinit, repeat OLock k) sched in
+  o_lock (fst s) = true ->
+  exists i t, nth_error (snd s) i = Some t /\ (t = ORun \/ t = OUnlock) /\ fst (ostep false t (fst s)) <> t.
+Proof.
+  intros s Hl. assert (HI : OInv s).
+  { unfold s. apply inv_all_schedules; [intros s0 i; apply oinv_step|]. left. split; [reflexivity|].
+    cbn [snd]. clear. induction k as [|k IH]; cbn; [reflexivity|exact IH]. }
+  destruct HI as [[Hf _]|[_ (h & Hh)]]; [congruence|].
+  assert (Hne : flat_map ohold (snd s) <> []) by (rewrite Hh; discriminate).
+  apply fm_nonempty in Hne. destruct Hne as (x & Hx & Hf). destruct (In_nth_error _ _ Hx) as [i Hi].
+  exists i, x. split; [exact Hi|]. destruct x; cbn in Hf; try congruence; (split; [auto|]); cbn; discriminate.
+Qed.
+
+(* a clean handler that takes the lock of its own Dispose (the tunnels' OnClosed closure calling h.IsClosed() while Stop()
+   runs the clean-up handler): the closer waits for itself, no schedule moves anything, the handler never ran *)
+Lemma reentrant_handler_refuted :
+  exists pre,
+    let s := run _ _ (ostep true) (oinit, [OLock; OLock]) pre in
+    snd s = [ORun; OLock] /\ o_ran (fst s) = 0 /\ (forall sched, run _ _ (ostep true) s sched = s).
+Proof.
+  exists [0]. split; [vm_compute; reflexivity|]. split; [vm_compute; reflexivity|].
+  apply run_fixpoint. intros [|[|i]]; try (vm_compute; reflexivity). destruct i; vm_compute; reflexivity.
+Qed.
